@@ -257,7 +257,12 @@ func init() {
 	})
 
 	// ---- runtime / misc ------------------------------------------------------
-	reg("runtime.GOMAXPROCS", func(in *Interp, fr *frame, fn *ssa.Function, a []Value, site string) Value { return I64(4) })
+	reg("runtime.GOMAXPROCS", func(in *Interp, fr *frame, fn *ssa.Function, a []Value, site string) Value {
+		if v, ok := cliParams["GOMAXPROCS"]; ok {
+			return I64(int64(v))
+		}
+		return I64(4)
+	})
 	reg("runtime.KeepAlive", func(in *Interp, fr *frame, fn *ssa.Function, a []Value, site string) Value { return nil })
 	reg("runtime/debug.Stack", func(in *Interp, fr *frame, fn *ssa.Function, a []Value, site string) Value { return BSlice{} })
 	reg("internal/reflectlite.TypeOf", func(in *Interp, fr *frame, fn *ssa.Function, a []Value, site string) Value {
